@@ -199,6 +199,9 @@ func replayDir(c *specCase, f *failer, maps int, seed int64, sum *core.Summary) 
 			if d.SortErr != (len(c.Cyc) > 0) {
 				f.fail("Sort", "error", "error returned = %v, cyclic components = %v", d.SortErr, c.Cyc)
 			}
+			if !d.ErrMsg {
+				f.fail("Sort", "error-text", "the Unorderable error has an empty text")
+			}
 			if !d.CycByID {
 				f.fail("Sort", "component-order", "members of a listed cyclic component are not sorted by id")
 			}
@@ -665,6 +668,18 @@ func replay(in *core.Lines, args []string, seed int64, sum *core.Summary) error 
 			replayProdX(&c, f, maps, seed, sum)
 		case "gen":
 			replayGen(&c, f, maps, seed, sum)
+		case "flow":
+			if err := replayFlow(line, f, maps, seed, sum); err != nil {
+				return fmt.Errorf("line %d: %v", in.N, err)
+			}
+		case "walk":
+			if err := replayWalk(line, f, maps, seed, sum); err != nil {
+				return fmt.Errorf("line %d: %v", in.N, err)
+			}
+		case "equal":
+			if err := replayEqual(line, f, maps, seed, sum); err != nil {
+				return fmt.Errorf("line %d: %v", in.N, err)
+			}
 		case "missing-clique":
 			if err := replayMissingClique(line, f, seed, sum); err != nil {
 				return fmt.Errorf("line %d: %v", in.N, err)
